@@ -94,8 +94,12 @@ func (m *TlvModel) GenEncodeInto(buf *bytes.Buffer) error {
 			{{- if .NoCopy}}wire enc.Wire{{else}}buf []byte{{end}}) {
 
 			{{if .NoCopy}}
+				// The wire has no buffer at all when there is nothing to encode.
 				wireIdx := 0
-				buf := wire[wireIdx]
+				var buf []byte
+				if wireIdx < len(wire) {
+					buf = wire[wireIdx]
+				}
 			{{end}}
 
 			pos := uint(0)
